@@ -12,6 +12,11 @@ CHECKS = {
          "Every belt mechanism is called on enumerated boundary structure (all CTS lengths, wide-block lengths 32..208, header lengths straddling 16, counters wrapping 32/64/128 bits, alteration classes of authenticated unwrapping, FMT alphabets x word lengths, the FMT block-count table by breakpoints) and each result is recomputed by TLC from the standard's definition; not a proof over all keys/data: data octets are seeded samples.",
          "Trusted: TLC, the transcription of the standard in spec/ref (anchored by the appendix vectors in the same run), the C driver. ASan/UBSan build with exact-size buffers.",
          "DESIGN.md section 4, C01"),
+ "C02": ("exploration",
+         "TLA+ reference semantics of STB 34.101.45 (spec/ref/Bign.tla over ECp/BigNat and BeltModes) anchored by the appendix tables G.1-G.7 evaluated by TLC; tape-driven recorded calls of the real bign functions in the release AND assert-enabled builds judged by Trace_Bign (error classes, ranges, the signing equation for the tape's nonce, sign->verify, gen->val, wrap->unwrap, DH symmetry; a subset recomputed in full); TLC-generated replay cases (Gen_Bign)",
+         "Enumerated classes: generator tapes (valid / zero / in [q,2^2l) / in [q,p) / k rejected then valid / all rejected), d x H x nonce grid incl. H >= q and nonces around 2^l, 20 verifier alterations and 15 token alterations classified by the spec (alterations that leave the reduced hash unchanged are ACCEPT), key transport and DH; curves l = 128 (192, 256 in thorough). Data seeded.",
+         "Trusted: TLC, the transcription of the standard (anchored by the appendix vectors), the C driver. IBS functions are not specified; an in-field off-curve public key is an observation only (see DESIGN section 0).",
+         "DESIGN.md section 4, C02"),
  "C03": ("model_checking",
          "TLA+ reference semantics of STB 34.101.77 / 34.101.47 (spec/ref/BashF, Brng, Botp) anchored by appendix vectors evaluated by TLC; the bash programmable automaton as a state machine (spec/sm/BashPrg.tla) model-checked over command histories, every explored behaviour replayed on the real bashPrg* functions; recorded one-shot calls and random automaton scripts validated by TLC (Trace_Bash)",
          "bash-f in every platform variant the CPU supports, hash levels x length classes around the rate, all automaton command histories to depth 2-3 on the 12 configurations (deeper by simulation), brng CTR counters wrapping one word / two words / all 256 bits, HMAC key/IV length classes, OTP digit counts and counter wrap-around: each result recomputed by TLC from the standards' text.",
@@ -37,6 +42,11 @@ CHECKS = {
          "157 functions on enumerated structure: operand lengths 0..21 words crossing every algorithm switch, boundary-alphabet words, multiples of the modulus with quotients drawn from the boundary alphabet, Knuth-D over-estimate cases, 17 modulus classes reaching every reduction strategy of zmCreate, documented aliasing patterns; all 16-bit helpers exhaustively. Values AND carries/borrows/flags are compared; modular results must be fully reduced.",
          "Trusted: TLC, the header formulas as transcribed (anchored), the C driver. Longer operands are a seeded subset of the enumerated classes; wwNAF / ppMinPolyMod / random sampling functions have no specification.",
          "DESIGN.md section 4, C05"),
+ "C06": ("model_checking",
+         "the affine chord-and-tangent group law as TLA+ definition (spec/ref/ECp.tla, instantiated over TLC integers and over BigNat), validated by TLC as a group on complete small curves; TLC emits COMPLETE tables (points, addition, negation, doubling, tripling, all multiples up to 2*order+2, on-curve decisions for all coordinate pairs, SWU) per curve (Gen_ECSmall) and the same generic C functions are run over all of them in the assert-enabled ASan builds for 64- and 32-bit words; sampled calls on multi-word and standard curves recomputed by TLC (Trace_EC)",
+         "Exhaustive on complete curves of 9-120 points (quick; ~1000 points thorough) and on cyclic subgroups of order 5/7 over 64..192-bit primes (plain, Crandall, Montgomery rings): every ordered pair incl. O, P = Q, P = -Q, order-2 points, in J / AJ / AA forms under aliasing c=a, c=b, a=b (never a=b=c), all scalars 0..2*order+2 and multi-word scalars at every NAF width, ecpIsOnA on all pairs incl. coordinates >= p, SWU on all inputs. Standard curves: boundary scalars and TLC-checked laws on recorded results.",
+         "Trusted: TLC, the group-law definition (validated as a group by TLC), the C driver with exact ec->deep stacks. EC2 (binary curves) is not covered.",
+         "DESIGN.md section 4, C06"),
  "C07": ("exploration",
          "resource monitor spec/mon/Regions.tla (TLC trace validation of region / abort events) over the enumerated replay suites executed in exact-size ASan+UBSan+assert builds for 64- and 32-bit words; sensor = AddressSanitizer/UBSan/utilAssert (thorough: + valgrind memcheck)",
          "Memory safety is not decided by a TLA+ model: the specification family contributes the systematic behaviour space (all lengths / levels / alphabets / fragmentings / overlaps that the functional specs enumerate) and the region monitor; the verdict comes from the sanitizers on executions where every state, stack, blob and caller buffer has exactly the documented size.",
